@@ -79,9 +79,15 @@ CORPUS = [
 ]
 
 
+def _corner_test():
+    from props import corners
+    return corners.test_cases()
+
+
 def generate(rng, n, tier, cast_p=0.0):
     g = Gen(rng, pct_strings=True, max_depth=3)
     cases = [make_case(rr, doc) for rr, doc in CORPUS if (cast_p > 0 or not rr["cast"])]
+    cases += _corner_test()
     import terms as _t
     while len(cases) < n:
         rr = rc.gen_rule(g, cast_p=cast_p)
